@@ -142,6 +142,22 @@ class SliceView:
     def index_get(self, I, idx):
         return VecObj(as_elems(I, self)).index_get(I, idx)
 
+    def copy_from_slice(self, I, src):
+        """dst[lo..hi].copy_from_slice(src) for a window of an array / vector with concrete bounds"""
+        src = deref(I, src)
+        n = self.hi - self.lo
+        m = length_of(I, src)
+        if I.truth(I.binop("Ne", m, n, "usize")):
+            I.run.panics.append(("copy_from_slice_len", I.where()))
+            raise PathEnd("panic", "copy_from_slice length mismatch")
+        vals = [byte_at(I, src, i) for i in range(n)] if isinstance(src, Bytes) else list(as_elems(I, src))[:n]
+        base = self.base
+        tgt = base.fields if (isinstance(base, Agg) and base.adt == "array") else (base.elems if isinstance(base, VecObj) else None)
+        if tgt is None:
+            raise I.unanalysable("copy_from_slice into a window of %r" % type(base).__name__)
+        for i, x in enumerate(vals):
+            tgt[self.lo + i] = x
+
 
 def length_of(I, v):
     if hasattr(v, "length"):
@@ -158,9 +174,8 @@ def bytes_len(I, b):
     if lo == hi:
         return lo
     if len(b.parts) == 1 and b.parts[0][0] == "pay" and not b.parts[0][1].escapes and is_sym(b.parts[0][1].len):
-        cs = b.parts[0][1].charset
-        if b.parts[0][1].kind == "bytes" or all(c < 128 for c in cs):
-            return b.parts[0][1].len  # canonical length symbol of the payload
+        # Payload.len is the length in BYTES (charsets are byte sets, multi-byte characters contribute their UTF-8 bytes)
+        return b.parts[0][1].len  # canonical length symbol of the payload
     s = Sym("len", (), "usize", lo, hi, attrs={"of": b})
     # stable identity: cache on the object
     key = tuple(id(p) for p in b.parts)
@@ -574,6 +589,15 @@ def _vec_pop(I, f, a):
         return v.pop(I)
     if isinstance(v, VecObj):
         return some(v.elems.pop()) if v.elems else none()
+    if isinstance(v, Bytes):
+        lo, hi = v.fixed_len()
+        if lo != hi:
+            raise I.unanalysable("Vec::pop on a byte string of symbolic length")
+        if lo == 0:
+            return none()
+        b = byte_at(I, v, lo - 1)
+        v.parts = list(bytes_slice(I, v, 0, lo - 1).parts)
+        return some(b)
     raise I.unanalysable("Vec::pop on %r" % type(v).__name__)
 
 
@@ -582,6 +606,11 @@ def _slice_last(I, f, a):
     v = deref(I, a[0])
     if hasattr(v, "last"):
         return v.last(I)
+    if isinstance(v, Bytes) and not all(p[0] == "lit" for p in v.parts):
+        n = bytes_len(I, v)
+        if I.truth(I.binop("Eq", n, 0, "usize")):
+            return none()
+        return some(Ref(ByteSlot(v, I.binop("Sub", n, 1, "usize"), I), ()))
     el = as_elems(I, v)
     return some(Ref(ListSlot(el, len(el) - 1), ())) if el else none()
 
@@ -640,6 +669,56 @@ def _vec_truncate(I, f, a):
             v.parts = list(bytes_slice(I, v, 0, a[1]).parts)
         return unit()
     raise I.unanalysable("Vec::truncate on %r" % type(v).__name__)
+
+
+@model("std::string::String::reserve", "std::vec::Vec::<T, A>::reserve", "std::string::String::reserve_exact", "std::vec::Vec::<T, A>::reserve_exact",
+       "std::string::String::shrink_to_fit", "std::vec::Vec::<T, A>::shrink_to_fit")
+def _reserve(I, f, a):
+    return unit()          # capacity is not observable
+
+
+@model("std::string::String::truncate")
+def _string_truncate(I, f, a):
+    """String::truncate(new_len): no-op when new_len >= len; otherwise new_len must lie on a char boundary (else it panics)"""
+    v = deref(I, a[0])
+    if not isinstance(v, Bytes):
+        raise I.unanalysable("String::truncate on %r" % type(v).__name__)
+    n = a[1]
+    if I.truth(I.binop("Ge", n, bytes_len(I, v), "usize")):
+        return unit()
+    import models2
+    multi = any(c >= 128 for c in models2.charset_of(I, v))
+    if multi and not (not is_sym(n) and n == 0):
+        if I.run.choose(2, "truncate offset on a char boundary") == 1:
+            I.run.panics.append(("truncate_not_char_boundary", I.where()))
+            raise PathEnd("panic", "String::truncate: new_len is a byte offset inside a multi-byte character")
+    v.parts = list(bytes_slice(I, v, 0, n).parts)
+    return unit()
+
+
+@model("std::string::String::extend_from_within", "std::vec::Vec::<T, A>::extend_from_within")
+def _extend_from_within(I, f, a):
+    """v.extend_from_within(range): appends a copy of v[range]; modelled for the whole string (..len, .., 0..len)"""
+    v = deref(I, a[0])
+    if not isinstance(v, Bytes):
+        raise I.unanalysable("extend_from_within on %r" % type(v).__name__)
+    r = a[1]
+    name = str(getattr(r, "adt", "")).split("<")[0].split("::")[-1]
+    n = bytes_len(I, v)
+    lo, hi = 0, n
+    if name == "RangeTo":
+        hi = r.fields[0]
+    elif name == "Range":
+        lo, hi = r.fields
+    elif name == "RangeFrom":
+        lo = r.fields[0]
+    elif name != "RangeFull":
+        raise I.unanalysable("extend_from_within(%s)" % name)
+    whole = (not is_sym(lo) and lo == 0) and (hi is n or (is_sym(hi) and is_sym(n) and hi.key() == n.key()) or (not is_sym(hi) and not is_sym(n) and hi == n))
+    if not whole:
+        raise I.unanalysable("extend_from_within over a proper sub-range")
+    v.parts = list(v.parts) + list(v.parts)
+    return unit()
 
 
 @model("std::vec::Vec::<T, A>::remove")
@@ -1690,6 +1769,19 @@ def _slice_try_into_array(I, f, a):
     return ok(Ref(Box_(arr, "arr"), ()) if str(tgt).strip().startswith("&") else arr)
 
 
+@model_re(r"^<&(?:'\w+ )?(\w+) as std::ops::(Add|Sub|Mul|Div|Rem|BitAnd|BitOr|BitXor|Shl|Shr)<&?(?:'\w+ )?\w+>>::\w+$")
+def _ref_arith(I, f, a):
+    """operators on references to primitive integers (`&u8 & u8`, `&a + &b`): the operation on the values"""
+    import re as _re
+    p = (f.get("res") or {}).get("path") or f.get("path")
+    m = _re.match(r"^<&(?:'\w+ )?(\w+) as std::ops::(\w+)<", p)
+    ty, op = m.group(1), m.group(2)
+    if ty not in INT_TYPES:
+        raise I.unanalysable("operator %s on %s" % (op, ty))
+    x, y = deref(I, a[0]), deref(I, a[1])
+    return I.binop(op, x, y, ty)
+
+
 @model("std::hint::must_use", "std::convert::identity", "<T as std::convert::From<T>>::from",
        "<T as std::convert::Into<U>>::into")
 def _identity(I, f, a):
@@ -2096,6 +2188,29 @@ def _slice_first(I, f, a):
         return some(Ref(ByteSlot(v, 0, I), ()))
     el = as_elems(I, v)
     return some(Ref(ListSlot(el, 0), ())) if el else none()
+
+
+@model("core::slice::<impl [T]>::select_nth_unstable")
+def _select_nth_unstable(I, f, a):
+    """(left, &mut nth, right): the element of rank `index` in ascending order; the partitions are opaque"""
+    v = deref(I, a[0])
+    idx = a[1]
+    el = list(as_elems(I, v))
+    n = len(el)
+    if is_sym(idx):
+        lo, hi = bounds(idx)
+        if (lo < 0 or hi >= n) and I.truth(Sym("Ge", (idx, n), "bool")):
+            I.run.panics.append(("select_nth_oob", I.where()))
+            raise PathEnd("panic", "select_nth_unstable: index out of bounds")
+    elif not 0 <= idx < n:
+        I.run.panics.append(("select_nth_oob", I.where()))
+        raise PathEnd("panic", "select_nth_unstable: index out of bounds")
+    vals = [I.load(x) if isinstance(x, Ref) else x for x in el]
+    if not all(isinstance(x, int) and not isinstance(x, bool) for x in vals):
+        raise I.unanalysable("select_nth_unstable over non-integer elements")
+    srt = sorted(vals)
+    nth = ElemOf(srt, idx) if is_sym(idx) else srt[idx]
+    return Agg("tuple", None, [Opaque("select_nth_left"), Ref(Box_(nth, "nth"), ()), Opaque("select_nth_right")])
 
 
 @model("core::slice::<impl [T]>::split_at", "core::slice::<impl [T]>::split_at_mut")
